@@ -47,7 +47,7 @@ def _project(path, rootless=False):
 # C10
 # ------------------------------------------------------------------------------------------
 
-RO_OPS = ("get", "values", "children", "rename", "set_values", "set_vertices", "create", "add_data", "remove", "copy_same", "copy_other", "pg_add",
+RO_OPS = ("get", "values", "children", "rename", "set_values", "set_vertices", "create", "add_data", "remove", "copy_same", "copy_other", "pg_add", "type_edit", "root_type_edit",
           "close_open", "close_open_r", "fetch_active_r", "fetch_active_rw", "idle")
 
 
@@ -57,9 +57,9 @@ class ReadOnlyHistories(Contract):
     symbolic = False
     has_native = True
     props = ("C10",)
-    bounded_scope = ("a 5-entity project opened with mode 'r'; sequences of 3-8 calls over getters, setters, creations, removals, copies, property-group edits, close/re-open "
+    bounded_scope = ("a 5-entity project opened with mode 'r'; sequences of 3-8 calls over getters, setters (on entities and on entity types, the root's included), creations, removals, copies, property-group edits, close/re-open "
                      "(with and without an explicit mode) and fetch_active_workspace: after every call the file's sha256 is unchanged, an open handle reports mode 'r', and every "
-                     "call that has to write raised; 10 fixed + 40 seeded sequences (quick) / 600 (thorough); plus the ui.json loader and monitoring-directory helpers on ordinary "
+                     "call that has to write raised; 12 fixed + 40 seeded sequences (quick) / 600 (thorough); plus the ui.json loader and monitoring-directory helpers on ordinary "
                      "and root-less files")
 
     FIXED = [
@@ -73,6 +73,8 @@ class ReadOnlyHistories(Contract):
         [("close_open_r", 0), ("create", 0), ("close_open", 0), ("remove", 0)],
         [("values", 0), ("set_values", 1), ("values", 1), ("close_open", 0), ("values", 0), ("add_data", 0)],
         [("children", 0), ("close_open", 0), ("children", 0), ("rename", 1), ("close_open", 0), ("rename", 0)],
+        [("type_edit", 0), ("type_edit", 1), ("type_edit", 2), ("type_edit", 3), ("root_type_edit", 0)],
+        [("root_type_edit", 0), ("close_open", 0), ("root_type_edit", 0), ("type_edit", 5)],
     ]
 
     def native_cases(self, tier, rng):
@@ -162,6 +164,14 @@ class ReadOnlyHistories(Contract):
                                 o.add_data_to_group(kids[0], "pg2")
                             else:
                                 wrote = None
+                        elif op == "type_edit":
+                            # every loaded entity type (the root's included) is stored: renaming it has to write
+                            types = sorted(ws.types, key=lambda t: (t.name or "", str(t.uid)))
+                            t = types[a % len(types)]
+                            if t.on_file or True:
+                                t.description = (t.description or "") + "x"
+                        elif op == "root_type_edit":
+                            ws.root.entity_type.name = "renamed root type"
                         elif op == "fetch_active_rw":
                             # a helper re-opening in a writable mode is the documented way to write;
                             # it must say so (close + re-open), not silently switch: excluded from the histories' claim
@@ -253,7 +263,13 @@ class Boom(Exception):
     pass
 
 
-CL_OPS = ("points", "data", "rename", "values", "remove", "hole_data", "hole_rename", "redundant_open", "fetch_active_r", "fetch_active_rw")
+def _DG():
+    from geoh5py.groups import DrillholeGroup
+
+    return DrillholeGroup  # the run-time class of a group is generated ("Concatenator" + name): test by isinstance
+
+
+CL_OPS = ("points", "data", "rename", "values", "remove", "hole_data", "hole_rename", "hole_data_flags", "redundant_open", "fetch_active_r", "fetch_active_rw")
 
 
 class CloseHistories(Contract):
@@ -262,10 +278,10 @@ class CloseHistories(Contract):
     symbolic = False
     has_native = True
     props = ("C11",)
-    bounded_scope = ("a project with plain objects and a drillhole group; 2-6 operations (create, add data, rename, edit values, remove, drillhole data and renames whose persistence "
+    bounded_scope = ("a project with plain objects and a drillhole group; 2-6 operations (create, add data, rename, edit values, remove, drillhole data, renames and data-flag edits whose persistence "
                      "is deferred to close, a redundant open(), fetch_active_workspace in either mode) followed by one of {explicit close, leaving the with-block, an exception "
                      "escaping the with-block after k operations}; on disk and in an in-memory buffer saved with save_as: the file is valid, its re-opened tree equals the live tree "
-                     "at the time of the close, the handle is released, a call needing the file raises the closed-file error, re-opening works; 12 fixed + 30 seeded (quick) / 400")
+                     "at the time of the close, the handle is released, a call needing the file raises the closed-file error, re-opening works; 15 fixed + 30 seeded (quick) / 400")
 
     FIXED = [
         (["points", "data", "rename"], "close", "disk"),
@@ -280,6 +296,9 @@ class CloseHistories(Contract):
         (["hole_data", "hole_rename"], "close", "memory"),
         (["points", "data", "hole_data"], "with", "memory"),
         (["hole_rename", "points"], "close", "memory"),
+        (["hole_data_flags"], "close", "disk"),
+        (["hole_data_flags", "hole_data_flags"], "with", "disk"),
+        (["hole_data_flags"], "exception", "disk"),
     ]
 
     def native_cases(self, tier, rng):
@@ -302,17 +321,18 @@ class CloseHistories(Contract):
 
     @staticmethod
     def _snap(ws):
-        snap = tree_snapshot(ws)
-        # concatenated holes: names, collars and their data values (deferred persistence)
+        snap = {k: v for k, v in tree_snapshot(ws).items() if not v["class"].startswith("Concatenated")}
+        # concatenated holes load their children on demand, so they are described separately, by name:
+        # names and their data values and flags (deferred persistence)
         for g in ws.groups:
-            if type(g).__name__ == "DrillholeGroup":
+            if isinstance(g, _DG()):
                 for h in g.children:
                     # concatenated holes load their data on demand: ask by name
                     data = {}
                     for name in sorted(h.get_data_list()):
                         got = h.get_data(name)
                         if got and got[0].values is not None:
-                            data[name] = np.asarray(got[0].values).tolist()
+                            data[name] = (np.asarray(got[0].values).tolist(), bool(got[0].allow_rename), bool(got[0].public))
                     snap[f"hole:{h.uid}"] = {"name": h.name, "data": data}
         return snap
 
@@ -334,18 +354,24 @@ class CloseHistories(Contract):
         for k in range(2):
             Drillhole.create(ws, name=f"H{k}", parent=grp, collar=np.r_[float(k), 0.0, 0.0], surveys=np.c_[np.r_[0.0, 10.0], np.zeros(2), np.ones(2) * -90.0])
         Points.create(ws, name="seed", vertices=np.arange(9.0).reshape(3, 3)).add_data({"v": {"values": np.arange(3.0)}})
+        for h in grp.children:
+            h.add_data({"base_log": {"depth": np.array([1.0, 2.0]), "values": np.arange(2.0)}})
         if not memory:
             ws.close()
             ws = Workspace(path, mode="r+")
         count = [0]
         snap = [None]
         kept = []
+        grp_box = [[g for g in ws.groups if isinstance(g, _DG())][0]]
+        _ = [h.name for h in grp_box[0].children]  # the holes are loaded in this session
 
         def do(op):
             count[0] += 1
             k = count[0]
             objs = sorted([o for o in ws.objects if type(o).__name__ == "Points"], key=lambda o: o.name)
-            holes = sorted([h for g in ws.groups if type(g).__name__ == "DrillholeGroup" for h in g.children], key=lambda h: h.name)
+            holes = sorted([h for g in ws.groups if isinstance(g, _DG()) for h in g.children], key=lambda h: h.name)
+            if not holes:
+                raise RuntimeError("harness: no drillholes found in the session (vacuous hole operations)")
             if op == "points":
                 Points.create(ws, name=f"P{k}", vertices=np.arange(6.0).reshape(2, 3) + k)
             elif op == "data" and objs:
@@ -362,6 +388,14 @@ class CloseHistories(Contract):
                 holes[k % len(holes)].add_data({f"log{k}": {"depth": np.array([1.0, 2.0, 3.0]), "values": np.arange(3.0) + 10 * k}})
             elif op == "hole_rename" and holes:
                 holes[k % len(holes)].name = f"hole{k}"
+            elif op == "hole_data_flags" and holes:
+                # attribute edits of a stored drillhole data set (nothing else in the session need raise a flag)
+                h = holes[k % len(holes)]
+                names = [n for n in h.get_data_list() if n not in ("DEPTH", "FROM", "TO")]
+                if names:
+                    dat = h.get_data(sorted(names)[0])[0]
+                    dat.allow_rename = not dat.allow_rename
+                    dat.public = not dat.public
             elif op == "redundant_open":
                 ws.open()
             elif op == "fetch_active_r":
@@ -401,6 +435,13 @@ class CloseHistories(Contract):
             pass
         except Exception as exc:
             return f"accessing the closed workspace raises {type(exc).__name__} instead of the closed-file error ({case})"
+        try:
+            ws.fetch_children(grp_box[0])
+            return f"fetch_children on the drillhole group of the closed workspace answered from memory ({case})"
+        except Geoh5FileClosedError:
+            pass
+        except Exception as exc:
+            return f"fetch_children on the closed workspace raises {type(exc).__name__} instead of the closed-file error ({case})"
         if kept:
             try:
                 kept[0].add_data({"late": {"values": np.zeros(len(kept[0].vertices))}})
